@@ -33,11 +33,27 @@ pub struct GenConf {
     /// large population: 128 is added to `pop`
     #[serde(default)]
     pub big: bool,
+    /// the individuals reach every evaluation step carrying a placeholder objective value (+inf), as individuals
+    /// built with `Individual::new(solution, placeholder)` or pre-screened by another evaluator do
+    #[serde(default)]
+    pub placeholder: bool,
+}
+
+/// Gives every individual of the current population the placeholder objective value +inf.
+#[derive(Clone, serde::Serialize)]
+pub struct Placeholder;
+impl Component<RealP> for Placeholder {
+    fn execute(&self, _problem: &RealP, state: &mut mahf::State<RealP>) -> mahf::ExecResult<()> {
+        for i in state.populations_mut().current_mut().iter_mut() {
+            i.set_objective(mahf::SingleObjective::INFINITY);
+        }
+        Ok(())
+    }
 }
 
 pub fn gen_conf_strategy(max_iters: u32) -> impl Strategy<Value = GenConf> {
-    (2u32..12, 1u32..14, 0u8..7, 0u8..4, 0u8..4, 0u8..4, 0u8..3, proptest::option::of(0usize..4), prop_oneof![Just(1.0), Just(0.5), 0.0f64..=1.0], 1u32..4, (0u32..=max_iters, prop_oneof![3 => Just(0u8), 4 => 1u8..5], prop_oneof![7 => Just(false), 1 => Just(true)]))
-        .prop_map(|(pop, lambda, sel, xo, mutation, bound, repl, archive, pm, every, (iters, diversity, big))| GenConf { pop, lambda, sel, xo, mutation, bound, repl, archive, pm, every, iters, diversity, big })
+    (2u32..12, 1u32..14, 0u8..7, 0u8..4, 0u8..4, 0u8..4, 0u8..3, proptest::option::of(0usize..4), prop_oneof![Just(1.0), Just(0.5), 0.0f64..=1.0], 1u32..4, (0u32..=max_iters, prop_oneof![3 => Just(0u8), 4 => 1u8..5], prop_oneof![7 => Just(false), 1 => Just(true)], prop_oneof![3 => Just(false), 1 => Just(true)]))
+        .prop_map(|(pop, lambda, sel, xo, mutation, bound, repl, archive, pm, every, (iters, diversity, big, placeholder))| GenConf { pop, lambda, sel, xo, mutation, bound, repl, archive, pm, every, iters, diversity, big, placeholder })
 }
 
 impl GenConf {
@@ -89,12 +105,15 @@ impl GenConf {
         let archive = g.archive;
         let pm = g.pm;
         let every = g.every;
+        let ph = g.placeholder;
+        let mark = move || -> Option<Box<dyn Component<RealP>>> { if ph { Some(Box::new(Placeholder)) } else { None } };
         Configuration::builder()
             .do_(initialization::RandomSpread::new(g.pop))
+            .do_if_some_(mark())
             .evaluate()
             .update_best_individual()
             .while_(LessThanN::iterations(g.iters), move |b| {
-                let mut b = b.do_(selection).do_(crossover).if_(RandomChance::new(pm), |b| b.do_(mutation)).do_(bound).evaluate().update_best_individual();
+                let mut b = b.do_(selection).do_(crossover).if_(RandomChance::new(pm), |b| b.do_(mutation)).do_(bound).do_if_some_(mark()).evaluate().update_best_individual();
                 if let Some(k) = archive {
                     b = b.do_(archive::ElitistArchiveUpdate::new(k)).do_(archive::ElitistArchiveIntoPopulation::new());
                 }
